@@ -116,6 +116,12 @@ def run_one(mod, case, timeout):
         res = mod.run_case(case)
     except CaseTimeout:
         res = {"decided": False, "nontrivial": False, "violations": [], "skip": "watchdog"}
+    except MemoryError:
+        # the worker runs under an address-space limit (VERIF_MEM_GB): a case that needs more is not decided - like the watchdog,
+        # a resource limit of the harness is never a verdict on the property
+        import gc
+        gc.collect()
+        res = {"decided": False, "nontrivial": False, "violations": [], "skip": "memory_limit"}
     except Exception as exc:
         # Who raised?  Walk the traceback from the innermost frame outwards: the first frame that belongs to
         # pyrex or to the harness decides.  An exception escaping from pyrex (or from numpy/scipy/h5py called
@@ -151,6 +157,12 @@ def run_one(mod, case, timeout):
 
 # ----------------------------------------------------------------------------- worker
 def worker(pid, infile, outfile):
+    try:
+        import resource
+        lim = int(float(os.environ.get("VERIF_MEM_GB", "12")) * 2**30)
+        resource.setrlimit(resource.RLIMIT_AS, (lim, lim))
+    except Exception:       # noqa: BLE001 -- no limit available: run without
+        pass
     with open(infile) as f:
         job = json.load(f)
     out = open(outfile, "w")
@@ -435,6 +447,8 @@ def main(argv=None):
         reasons.append("%d harness errors, e.g. %s" % (skips["harness_error"], (errors[0] or "").strip().splitlines()[-1] if errors else ""))
     if skips.get("watchdog", 0) > max(2, 0.02 * len(cases)):
         reasons.append("%d cases hit the watchdog" % skips["watchdog"])
+    if skips.get("memory_limit", 0) > max(2, 0.02 * len(cases)):
+        reasons.append("%d cases hit the memory limit of the harness" % skips["memory_limit"])
 
     # a tree that does not import *is* the violation for C20 (decided inside its run_case), for the
     # others it is inconclusive: they can observe nothing.
